@@ -545,6 +545,28 @@ class DispatchView(object):
         """``e`` is request.<attr> (directly or through single-definition locals)."""
         return norm(self.resolve(e)) == '%s.%s' % (self.request, attr)
 
+    def is_route_attr(self, t, attr):
+        """``t`` is <route>.<attr> of the route being tried: spelled out, or a local read once per iteration -- bound exactly
+        once in dispatch, by a plain ``name = <route>.<attr>`` that is a statement of the loop body itself (so it is run in
+        every iteration, after the loop bound the route), and read in a later statement of that body (never a value left
+        over from the previous route)."""
+        want = '%s.%s' % (self.route_var, attr)
+        if norm(t) == want:
+            return True
+        if isinstance(t, ast.Name) and isinstance(t.ctx, ast.Load):
+            av = assigned_value(self.fi.node, t.id)
+            if len(av) == 1 and isinstance(av[0][0], ast.Assign) and av[0][2] is None and av[0][1] is not None and norm(av[0][1]) == want \
+                    and len(av[0][0].targets) == 1:
+                body = self.loop.body
+                at = [i for i, s in enumerate(body) if s is av[0][0]]
+                if not at:
+                    return False
+                later = set(id(n) for s in body[at[0] + 1:] for n in ast.walk(s))
+                # (every read of the local in dispatch is such a later read: conditions may reach here as copies)
+                return all(id(n) in later for n in ast.walk(self.fi.node)
+                           if isinstance(n, ast.Name) and n.id == t.id and isinstance(n.ctx, ast.Load))
+        return False
+
     def fold(self, e):
         """value of a module-level constant expression; locals of dispatch are never folded (a local may shadow a constant)"""
         if self._locals is None:
